@@ -45,11 +45,11 @@ type verifHdrScn struct {
 
 // verifHdrLine is one header line, as written by the client or as received by a backend.
 type verifHdrLine struct {
-	N    string   `json:"n"`              // field name exactly as on the wire
-	Ln   string   `json:"ln"`             // lower-cased field name
-	V    string   `json:"v"`              // field value without surrounding whitespace
-	Els  []string `json:"els"`            // comma-separated elements of the value (trimmed, empty ones dropped)
-	Toks []string `json:"toks"`           // Connection lines: lower-cased elements (the nominated names); else empty
+	N    string   `json:"n"`    // field name exactly as on the wire
+	Ln   string   `json:"ln"`   // lower-cased field name
+	V    string   `json:"v"`    // field value without surrounding whitespace
+	Els  []string `json:"els"`  // comma-separated elements of the value (trimmed, empty ones dropped)
+	Toks []string `json:"toks"` // Connection lines: lower-cased elements (the nominated names); else empty
 }
 
 func verifHdrMkLine(name, value string) verifHdrLine {
